@@ -81,7 +81,7 @@ def run_pairs(pairs, protocol, seed=0, tid=1):
             g1b = c.get(k1, default='<none>')
             # membership and add of the second key next to the first
             c.clear()
-            c.set(k1, 'v1')
+            c.set(k1, 'v1', expire=1000)           # (an item whose time to live is running)
             in2 = 1 if k2 in c else 0
             try:
                 a2 = 1 if c.add(k2, 'a2') else 0
